@@ -867,3 +867,148 @@ func ruleSeparatorBetweenNonEmpty(c *eng.Ctx) {
 		}
 	}
 }
+
+// parallelIndexFindings: a slice built by a conditional append while ranging over a source
+// slice (elements can be skipped) is later indexed with the same counter as the source.
+func parallelIndexFindings(p *eng.Prog, fn *ssa.Function) []string {
+	var out []string
+	// 1. filtered slices: append(x, …) in a loop over src where some path through the iteration avoids the append
+	type filt struct {
+		src   ssa.Value // the slice ranged over
+		field string    // field the result is stored to ("" = local)
+		hdr   *ssa.BasicBlock
+	}
+	var filts []filt
+	eng.Instrs(fn, false, func(in ssa.Instruction) {
+		call, ok := in.(*ssa.Call)
+		if !ok {
+			return
+		}
+		bi, ok := call.Call.Value.(*ssa.Builtin)
+		if !ok || bi.Name() != "append" || !eng.InLoop(call.Block()) {
+			return
+		}
+		// the loop: nearest dominating header with an induction phi that indexes a slice
+		var hdr *ssa.BasicBlock
+		var src ssa.Value
+		for d := call.Block(); d != nil && hdr == nil; d = d.Idom() {
+			for _, i2 := range d.Instrs {
+				ph, ok := i2.(*ssa.Phi)
+				if !ok {
+					break
+				}
+				if _, isInd := eng.Induction(ph); !isInd {
+					continue
+				}
+				// what does this counter index?
+				eng.Instrs(fn, false, func(i3 ssa.Instruction) {
+					if ia, ok := i3.(*ssa.IndexAddr); ok {
+						if q, ok := eng.Induction(ia.Index); ok && q == ph {
+							if _, isSl := ia.X.Type().Underlying().(*types.Slice); isSl && src == nil {
+								src = ia.X
+								hdr = d
+							}
+						}
+					}
+				})
+			}
+		}
+		if hdr == nil || src == nil {
+			return
+		}
+		// can an iteration reach the header again without passing the append block?
+		skip := false
+		for _, s := range hdr.Succs {
+			if eng.ReachableBlocks([]*ssa.BasicBlock{s}, func(b *ssa.BasicBlock) bool { return b == call.Block() })[hdr] && hdr.Dominates(s) {
+				// s leads back to the header avoiding the append: but s must be inside the loop body
+				if eng.ReachableBlocks([]*ssa.BasicBlock{s}, nil)[call.Block()] {
+					skip = true
+				}
+			}
+		}
+		if !skip {
+			return
+		}
+		field := ""
+		if fr, ok := eng.LoadOfField(call.Call.Args[0]); ok {
+			field = fr.Field
+		}
+		filts = append(filts, filt{src: src, field: field, hdr: hdr})
+	})
+	if len(filts) == 0 {
+		return nil
+	}
+	// 2. a later loop whose counter indexes both the filtered slice and the source
+	eng.Instrs(fn, false, func(in ssa.Instruction) {
+		ph, ok := in.(*ssa.Phi)
+		if !ok {
+			return
+		}
+		if _, isInd := eng.Induction(ph); !isInd {
+			return
+		}
+		var idxd []ssa.Value
+		eng.Instrs(fn, false, func(i3 ssa.Instruction) {
+			if ia, ok := i3.(*ssa.IndexAddr); ok {
+				if q, ok := eng.Induction(ia.Index); ok && q == ph {
+					idxd = append(idxd, ia.X)
+				}
+			}
+		})
+		// the loop may only use the length of the filtered list as its bound (for i := range list)
+		var bounds []ssa.Value
+		eng.Instrs(fn, false, func(i3 ssa.Instruction) {
+			b, ok := i3.(*ssa.BinOp)
+			if !ok || b.Op != token.LSS {
+				return
+			}
+			if q, ok := eng.Induction(b.X); !ok || q != ph {
+				return
+			}
+			if call, ok := b.Y.(*ssa.Call); ok {
+				if bi, ok := call.Call.Value.(*ssa.Builtin); ok && bi.Name() == "len" {
+					bounds = append(bounds, call.Call.Args[0])
+				}
+			}
+		})
+		idxd = append(idxd, bounds...)
+		for _, f := range filts {
+			if ph.Block() == f.hdr {
+				continue
+			}
+			onFiltered, onSrc := false, false
+			for _, x := range idxd {
+				if fr, ok := eng.LoadOfField(x); ok && f.field != "" && fr.Field == f.field {
+					onFiltered = true
+				}
+				if eng.SameValue(x, f.src) {
+					onSrc = true
+				}
+			}
+			if onFiltered && onSrc {
+				out = append(out, fmt.Sprintf("the counter of the loop at %s indexes both %s (from which elements may have been skipped) and the list it was built from", p.Pos(ph.Pos()), f.field))
+			}
+		}
+	})
+	return out
+}
+
+// R18.5 [C18]
+func ruleParallelIndex(c *eng.Ctx) {
+	const R = "R18.5-PARALLEL-INDEX"
+	c.Rule(R, "a list built by appending while ranging over a declared list, with some entries skipped (unreadable parts), is never indexed in parallel with the declared list by one counter: after a skip the positions no longer correspond and every later part gets its neighbour's relationships and notes", 3, 1)
+	for _, fn := range c.P.ModuleFuncs() {
+		if fn.Pkg == nil {
+			continue
+		}
+		sp := eng.ShortPath(fn.Pkg.Pkg.Path())
+		if sp != "pptx" && sp != "xlsx" && sp != "epubdoc" && sp != "docx" && sp != "odt" && !strings.Contains(sp, eng.PositivePkg) {
+			continue
+		}
+		if fn.Parent() != nil {
+			continue
+		}
+		f := parallelIndexFindings(c.P, fn)
+		c.Check(len(f) == 0, R, eng.FuncName(fn), fn.Pos(), "no parallel indexing of a filtered list", strings.Join(f, "; "))
+	}
+}
